@@ -138,4 +138,22 @@ theorem filter_true {α} (l : List α) : filter (fun _ => true) l = l := by simp
 
 theorem map_id'' {α} (l : List α) : map (fun x => x) l = l := by simp
 
+/-! Ground list facts handed to z3 as quantifier-free instances (pyvc `ground_len_facts`). -/
+
+/-- every element of a list satisfying P does so at each valid index (instantiated for the grammar
+well-formedness predicate of list fields). -/
+theorem all_nth {α} (P : α → Prop) (l : List α) (h : ∀ x ∈ l, P x) (i : Nat) (hi : i < l.length) :
+    P (l[i]) := h _ (List.getElem_mem hi)
+
+theorem length_cons'' {α} (a : α) (t : List α) : (a :: t).length = 1 + t.length := by
+  simp [Nat.add_comm]
+
+theorem nil_iff_length_zero {α} (l : List α) : l = [] ↔ l.length = 0 := by
+  cases l <;> simp
+
+theorem length_append'' {α} (a b : List α) : (a ++ b).length = a.length + b.length := by simp
+theorem append_assoc'' {α} (a b c : List α) : (a ++ b) ++ c = a ++ (b ++ c) := by simp
+theorem append_nil'' {α} (a : List α) : a ++ [] = a := by simp
+theorem length_map'' {α β} (f : α → β) (l : List α) : (l.map f).length = l.length := by simp
+
 end FuncAdl
